@@ -5,6 +5,25 @@ import AnsiModel.Generated.Methods.Strip
 import AnsiModel.Generated.Methods.Removeprefix
 import AnsiModel.Generated.Methods.Removesuffix
 
+/-
+  Property C11, part d — the *generated* (statement-by-statement translated) bodies of
+  `AnsiString.clip`, `AnsiString._strip` (behind `strip`/`lstrip`/`rstrip`), `removeprefix` and
+  `removesuffix` compute exactly what the hand-written model says (`AStr.clip`/`AStr.getSlice`,
+  `AStr.stripGen`, `AStr.removeprefix`, `AStr.removesuffix`); no exception, nothing outside the model's
+  representation (`Py.optGet rcount` in the second loop of `_strip` is never reached with `None`).
+
+  * `namespace C11d.L` — nothing there mentions `Gen.*`: a counting loop left by `break`
+    (`List.foldlM` over a pair (counter, done flag)) counts `(l.takeWhile c).length` upwards
+    (`fold_up`) or downwards in an `Option Int` (`fold_down`), for *any* step function that meets the
+    three-clause spec "done: unchanged / hit: count, go on / miss: set the flag".
+  * `namespace C11d` — the theorems over `Gen.*`: `unfold`, `rw` with the fold lemmas (the spec clauses
+    are side goals closed by `intros; simp_all`), `cases` on the Booleans, `simp`, `grind`.
+    The same scripts were run unchanged against a rewritten variant (`if not inplace: return obj`,
+    `if chars is not None: pass else: …`, `if char not in chars: break` before the increment, the
+    counters and `rcount == 0 → None` returned through binds instead of duplicated tails,
+    `removeprefix`/`removesuffix` with the branches swapped) and passed.
+-/
+
 namespace C11d
 namespace L
 
@@ -21,6 +40,7 @@ theorem fold_done {ε σ α : Type} (f : σ × Bool → α → Except ε (σ × 
     show List.foldlM f _ l = _
     rw [ih]
 
+/-- `for ch in l: if c(ch): n += 1 else: break` -/
 theorem fold_up {ε α : Type} (c : α → Bool) (f : Int × Bool → α → Except ε (Int × Bool))
     (hd : ∀ n ch, f (n, true) ch = .ok (n, true))
     (hh : ∀ n ch, c ch = true → f (n, false) ch = .ok (n + 1, false))
@@ -44,6 +64,7 @@ theorem fold_up {ε α : Type} (c : α → Bool) (f : Int × Bool → α → Exc
       rw [fold_done f hd]
       simp [h]
 
+/-- `for ch in l: if c(ch): r -= 1 else: break` where `r` may hold `None` as far as the translator sees -/
 theorem fold_down {ε α : Type} (c : α → Bool) (f : Option Int × Bool → α → Except ε (Option Int × Bool))
     (hd : ∀ n ch, f (n, true) ch = .ok (n, true))
     (hh : ∀ n ch, c ch = true → f (some n, false) ch = .ok (some (n - 1), false))
@@ -76,19 +97,23 @@ theorem clip_is_code (x : AStr) (st en : Option Int) (inplace : Bool) :
   unfold Gen.clip AStr.clip
   cases inplace <;> simp
 
+/-- `if chars is None: chars = WHITESPACE_CHARS` -/
 theorem strip_none (x : AStr) (inplace doL doR : Bool) :
     Gen.strip x none inplace doL doR = Gen.strip x (some Gen.whitespaceChars) inplace doL doR := by
   unfold Gen.strip
   first | rfl | simp [bind_ok]
 
+set_option linter.unusedSimpArgs false in
+/-- the translated `_strip` with a given character set -/
 theorem strip_some (x : AStr) (cs : Str) (inplace doL doR : Bool) :
     Gen.strip x (some cs) inplace doL doR = .ok (x.stripGen (some cs) doL doR inplace) := by
   unfold Gen.strip
-  simp only [Option.isNone_some, Bool.false_eq_true, if_false, bind_ok]
+  simp only [Option.isNone_some, Option.isNone_none, Bool.not_true, Bool.not_false, Bool.false_eq_true,
+    if_true, if_false, bind_ok]
   rw [fold_down (fun ch => cs.contains ch) _ ?d ?h ?m]
   rw [fold_up (fun ch => cs.contains ch) _ ?d2 ?h2 ?m2]
   · cases doL <;> cases doR <;> cases inplace <;> simp [bind_ok, clip_is_code, AStr.stripGen, AStr.clip, AStr.len]
-    all_goals grind
+    all_goals grind [bind_ok]
   all_goals (intros; simp_all [Py.optGet, bind_ok])
 
 theorem strip_is_code (x : AStr) (chars : Option Str) (inplace doL doR : Bool) :
